@@ -121,7 +121,13 @@ def check_case(case, ctx):
             return [f"default output for a checkpoint named {name}: new entries {new}"]
         expected_out = new[0]
     if not os.path.isdir(expected_out):
-        return [f"expected output {expected_out} was not written (new entries {new})"]
+        # the default name is documentation, not part of the property: accept any single new directory beside the checkpoint
+        dirs = [n for n in new if os.path.isdir(n)]
+        if case["out"] != "explicit" and len(dirs) == 1:
+            ctx.label("default-output-renamed")
+            expected_out = dirs[0]
+        else:
+            return [f"expected output {expected_out} was not written (new entries {new})"]
     v += common.taste_accepts(expected_out)
     out, msgs = common.read_output(expected_out)
     if out is None:
